@@ -547,6 +547,12 @@ class XsdAttributeGroup(
                         base_attr.use == 'required' and attr.use != 'required':
                     msg = _("Attribute {!r}: unmatched attribute use in restriction")
                     self.parse_error(msg.format(name))
+                elif base_attr.use == 'prohibited' and attr.use != 'prohibited' and \
+                        (wildcard is None or not wildcard.is_matching(name)):
+                    # the base type does not admit the attribute at all: re-admitting
+                    # it is not a restriction (same rule as for an undeclared attribute)
+                    msg = _("Unexpected attribute {!r} in restriction")
+                    self.parse_error(msg.format(name))
 
                 if base_attr.fixed is not None:
                     if attr.fixed is None or attr.type.normalize(attr.fixed) != \
